@@ -204,7 +204,12 @@ temporary_stack_initializer::~temporary_stack_initializer() noexcept
     // don't destroy, nifty counter does that
     // but can get rid of all the memory
     if (temp_stack)
+    {
         temporary_stack_list_obj.clear(*temp_stack);
+        // the stack is marked as free now and can be taken over by any thread,
+        // this thread must not keep using it
+        temp_stack = nullptr;
+    }
 }
 
 temporary_stack& foonathan::memory::get_temporary_stack(std::size_t initial_size)
